@@ -232,10 +232,26 @@ def cs_bits(ctx):
     ctx.require(ok, q, 'checksum bits come from %s, expected the 256 bits of SHA-256(entropy)' % show(src)[:140], fn)
 
 
+# sha256 over the '\n'-joined word sequence of the official BIP39 lists (bitcoin/bips bip-0039/*.txt); english.txt as a file has the
+# well-known digest 2f5eed53a4727b4bf8880d8f3f199efc90e58503646d9ff8eff3a2ed3b24dbda
+OFFICIAL = {
+    'chinese_simplified.txt': '106cc8387ac3fc7d44ca1072e30a0b27ed017b1d377501bb909c2833ef60c186',
+    'chinese_traditional.txt': '407312f9014543242bd157c255125a753ac60128fc15883a33b8685a9328b0cc',
+    'dutch.txt': '8bf228b0c7359a2096530da5f9acf3f9099ce568a5800427511e6b4ee8f306b9',
+    'english.txt': '187db04a869dd9bc7be80d21a86497d692c0db6abd3aa8cb6be5d618ff757fae',
+    'french.txt': 'b8caec12319d0ffb127c84e42c8866c86a54ac9951fe2cfbf902d35552c65e4f',
+    'italian.txt': 'ffefe450a4be8015d9c291d6ae305ab7e814e822113fa874268c3074af42b27e',
+    'japanese.txt': 'a3c2aa5c689341519e8a579e28d2956910313e372b04cf0f31baef40dc44d69c',
+    'portuguese.txt': '882265ece9ce1178b9fe47463d571dfa399c6fc7cb17895eb2767f1930c945eb',
+    'spanish.txt': '2f06d28020d49115a2e502fb6042aaa593e90773edb947685482d05ee2af6a03',
+}
+
+
 @PROP.obligation('C14.lists')
 def lists(ctx):
     """Nine word lists, each 2048 unique words, each word equal to its NFKD form (so a normalised sentence can be looked up),
-    no two lists identical."""
+    no two lists identical, and each word sequence equal to the official BIP39 list (pinned digests of the sequences: the lists are
+    normative constants; dutch is not an official BIP39 language and is pinned to the bundled sequence)."""
     d = os.path.join(ctx.repo.root, 'bitcoinlib', 'wordlist')
     if not os.path.isdir(d):
         ctx.undecided('word list directory missing')
@@ -255,6 +271,16 @@ def lists(ctx):
         key = tuple(words)
         ctx.require(key not in seen, q, 'identical to %s' % seen.get(key))
         seen[key] = f
+        # the BIP39 lists are normative and frozen: the word SEQUENCE (not the file bytes: line ends / trailing blanks may change) is pinned
+        import hashlib
+        dg = hashlib.sha256('\n'.join(w for w in words if w).encode('utf-8')).hexdigest()
+        if f in OFFICIAL:
+            if dg != OFFICIAL[f]:
+                ref = None
+                ctx.violate(q, 'the word sequence differs from the official BIP39 list (digest %s..., official %s...)' % (dg[:16], OFFICIAL[f][:16]), None,
+                            'generated sentences are not the BIP39 sentences of their entropy; sentences of other wallets are rejected or map to another seed')
+        else:
+            ctx.unsure('%s: no official digest known for this list' % q)
 
 
 @PROP.obligation('C14.entropy-domain')
